@@ -79,6 +79,8 @@ void __vf_access(const void* p, int w)
     else
         __CPROVER_assert(lock_held || frozen, "K3a read of shared container state without holding its mutex");
 }
+/* a library write that an optimiser may fold away (vstd declares it explicitly, see list::splice) */
+void __vf_lib_write(const void* p) { __vf_access(p, 1); }
 /* the lock must really be taken by the locked methods (mutex<thread_safe::yes> forwards to std::mutex) */
 int  __vf_acquisitions(void) { return acquisitions; }
 void __vf_free(void* p) { free(p); }
